@@ -202,7 +202,7 @@ def check_filltext_clauses(ctx: Ctx, text, mode, W, extra, empty, ic, out: str) 
     if mode in ("none", "indent_only"):
         return
     case = {"fn": "fill_text", "text": text, "mode": mode, "W": W, "extra": extra, "empty": empty, "ic": ic}
-    paras = [p.strip() for p in re.split(r"\n{2,}", text)]
+    paras = [p for p in (p.strip() for p in re.split(r"\n{2,}", text)) if p]   # whitespace-only stretches are not paragraphs
     sep = "\n" + empty.strip() + "\n"
     if [w for p in paras for w in p.split()] != out.replace(sep, " ").split() and extra.strip() == "" and empty.strip() == "":
         ctx.fail("FT_LOSSLESS: fill_text changed the word sequence", case, out)
@@ -210,7 +210,7 @@ def check_filltext_clauses(ctx: Ctx, text, mode, W, extra, empty, ic, out: str) 
     sub = extra + {"markdown_item": "  ", "wrap_indent": "    ", "hanging_indent": "    "}.get(mode, "")
     if W - len(sub) <= 0:
         # exactly one line per paragraph: pieces between separators are the paragraphs, none multi-line
-        pieces = out.split(sep)
+        pieces = out.split(sep) if paras else ([] if out.strip() == "" else [out])
         if len(pieces) != len(paras) or any("\n" in pc for pc in pieces):
             multi = any("\n" in p for p in paras)
             known = "C05-plaintext-nowrap-keeps-newlines" if (multi and mode in ("wrap", "markdown_item")) else None
